@@ -177,9 +177,9 @@ Proof.
   rewrite (node_locked_td s o Fl) in H. now inversion H.
 Qed.
 
-Theorem step_good : forall U hk s o, objs_consistent U -> Good U s -> clean_op U o -> Good U (fst (step repo hk s o)).
+Theorem step_good_any : forall fx U hk s o, objs_consistent U -> Good U s -> clean_op U o -> Good U (fst (step fx hk s o)).
 Proof.
-  intros U hk s o HU G C. destruct o; cbn [clean_op] in C; try contradiction; cbn [step].
+  intros fx U hk s o HU G C. destruct o; cbn [clean_op] in C; try contradiction; cbn [step].
   - now apply lock_good.
   - now apply unlock_good.
   - destruct (read_spec U hk s p m args kwargs HU G C) as [G' _].
@@ -194,6 +194,9 @@ Proof.
     destruct (is_node_path s (x :: p) || match find_leaf s (x :: p) with Some _ => true | None => false end); [|exact G].
     cbn [fst]. eapply del_good; eauto.
 Qed.
+
+Theorem step_good : forall U hk s o, objs_consistent U -> Good U s -> clean_op U o -> Good U (fst (step repo hk s o)).
+Proof. intros. now apply step_good_any. Qed.
 
 Theorem run_good : forall U hk ops s, objs_consistent U -> Good U s -> Forall (clean_op U) ops -> Good U (run repo hk s ops).
 Proof.
